@@ -18,7 +18,7 @@ def one(d):
     meta = json.load(open(d + '/meta.json')) if os.path.exists(d + '/meta.json') else {}
     if meta.get('superseded_by_fix'):
         return name, {'status': 'superseded', 'by': meta['superseded_by_fix']}
-    for tier in ('quick', 'thorough'):
+    for tier in (('quick',) if os.environ.get('RECHECK_QUICK_ONLY') else ('quick', 'thorough')):
         r = subprocess.run(['/verif/tools/mutant.py', d + '/patch.diff', '--props', prop, '--tier', tier, '--nosuite'], capture_output=True, text=True)
         last = [l for l in r.stdout.split('\n') if l.startswith(('DETECTED', 'PATCH'))]
         line = last[0] if last else 'ERROR ' + (r.stdout + r.stderr)[-200:]
